@@ -540,15 +540,19 @@ def run(tier):
         if len(v["tree"]) > 1 or "/" in v["raw"]:
             nontrivial.add(("cda", "".join(v["raw"]), json.dumps(v["tree"], sort_keys=True)))
     if drift:
-        # does the pinned algorithm explain the code?  (evidence only)
-        resp, pv = cda_vectors(chk, "pinned", maxlen, bufmax, False)
-        pmap = {("".join(v["raw"]), json.dumps(v["tree"], sort_keys=True)): v for v in pv}
-        agree = 0
+        # does the pinned algorithm explain the code?  (evidence only; the scaled stack buffer is switched
+        # off - BufMax = MaxLen - because real 5..7-character paths do not reach the real 512-byte limit)
+        _, pv = cda_vectors(chk, "pinned", maxlen, maxlen, False)
+        _, pvd = cda_vectors(chk, "pinned", dotlen, dotlen, False, 4, '"a", ".", "/"')
+        pmap = {("".join(v["raw"]), json.dumps(v["tree"], sort_keys=True)): v for v in pv + pvd}
+        agree = total = 0
         for v, r in zip(vecs, runs):
             pvv = pmap.get(("".join(v["raw"]), json.dumps(v["tree"], sort_keys=True)))
-            if r and pvv and r[1]["res"]["class"] == pvv["res"] and canon_dump(r[1]["tree"]) == canon_tree(pvv["after"]):
-                agree += 1
-        algo = "pinned" if agree == len([r for r in runs if r]) else "neither"
+            if r and pvv:
+                total += 1
+                if r[1]["res"]["class"] == pvv["res"] and canon_dump(r[1]["tree"]) == canon_tree(pvv["after"]):
+                    agree += 1
+        algo = "pinned" if total and agree == total else "neither (pinned agrees on %d of %d)" % (agree, total)
     chk.extra["create_dir_all_model"] = {
         "transcription_satisfies_postcondition_in_model": model_ok, "vectors": len(vecs), "max_path_chars": maxlen,
         "model_conformance": not drift, "conforming_transcription": algo, "divergent_vectors": drift[:5], "divergent_count": len(drift)}
